@@ -1266,6 +1266,26 @@ impl SparqlDatabase {
         let chunk_size = 1000;
         let chunks: Vec<Vec<String>> = lines.chunks(chunk_size).map(|c| c.to_vec()).collect();
 
+        // A '#' starts a comment only outside <...> and "...".
+        fn strip_n3_comment(line: &str) -> &str {
+            let (mut in_iri, mut in_literal, mut escaped) = (false, false, false);
+            for (offset, ch) in line.char_indices() {
+                if escaped {
+                    escaped = false;
+                    continue;
+                }
+                match ch {
+                    '\\' if in_literal => escaped = true,
+                    '"' if !in_iri => in_literal = !in_literal,
+                    '<' if !in_literal => in_iri = true,
+                    '>' if !in_literal => in_iri = false,
+                    '#' if !in_iri && !in_literal => return line[..offset].trim(),
+                    _ => {}
+                }
+            }
+            line
+        }
+
         let partial_results: Vec<(
             Vec<Triple>,
             Arc<RwLock<Dictionary>>,
@@ -1277,11 +1297,7 @@ impl SparqlDatabase {
                 let mut statement = String::new();
 
                 for raw_line in chunk {
-                    let mut line = raw_line.as_str();
-                    if let Some(comment_start) = line.find('#') {
-                        line = &line[..comment_start];
-                        line = line.trim();
-                    }
+                    let line = strip_n3_comment(raw_line.as_str());
                     if line.is_empty() {
                         continue;
                     }
